@@ -248,7 +248,10 @@ theorem owed_below {c : Cfg} (w : CoreA.WF c) {fin : Nat → Bool} (hadm : Admis
 
 /-! ### the theorem -/
 
-/-- C03: an admissible tree, run by a (weakly) fair environment while time goes on, finishes: the top-level run ends -/
+/-- C03: an admissible tree, run by a (weakly) fair environment while time goes on, finishes: the top-level run ends.
+    (The run `r` may contain the cancellation of the top-level task from outside, `extCancel` — at most once,
+    `LiveB.extCancel_once` —: it then ends because it was cancelled, `ph 0 = .cancelled`, which is still
+    `pcB 0 = .over`; no hypothesis asks for that event, and none forbids it.) -/
 theorem admissible_run_ends {c : Cfg} (hwf : c.wf = true) (fin : Nat → Bool) (hadm : Admissible c fin) (r : InfRun c)
     (hbegun : ∃ i, (r.st i).pcB 0 ≠ .notBegun) (hb : WeakFairBodies fin r) (hh : FairHandlers r)
     (ht : TimeDiverges r) :
